@@ -273,6 +273,97 @@ let span_ok (bytes : string) (dense_target : bool) : bool =
           Z.leq (Z.sub mx mn) (Z.of_int 4000000)) in
     ok c.M.c_pos && ok c.M.c_neg
 
+(* ---------- protobuf forms (C09): messages as the Coq records of Wire/Proto.v ---------- *)
+let pstores : (string, M.pb_store) Hashtbl.t = Hashtbl.create 16
+let psketches : (string, M.pb_sketch) Hashtbl.t = Hashtbl.create 16
+let pmappings : (string, M.pb_mapping) Hashtbl.t = Hashtbl.create 16
+let pb_store_str (p : M.pb_store) : string =
+  let ents = List.stable_sort (fun (a, _) (b, _) -> Z.compare (to_z a) (to_z b)) (M.pb_map_view p.M.bin_counts) in
+  Printf.sprintf "bins=%s off=%s contig=%s"
+    (String.concat "," (List.map (fun (i, w) -> Z.to_string (to_z i) ^ ":" ^ fstr_f w) ents))
+    (Z.to_string (to_z p.M.contiguous_offset)) (String.concat "," (List.map fstr_f p.M.contiguous_counts))
+let pb_of_store (s : M.store) : M.pb_store =
+  match s with
+  | M.SD d -> (match M.to_proto_d d with Some r -> M.pb_of_dense_proto r | None -> failwith "panic")
+  | _ -> (match M.st_foreach s with Some (_, l) -> M.to_proto_sparse l | None -> failwith "panic")
+let pb_sketch_str (p : M.pb_sketch) : string =
+  let st = function Some s -> "[" ^ pb_store_str s ^ "]" | None -> "nil" in
+  Printf.sprintf "map=%s zero=%s pos=%s neg=%s"
+    (match p.M.ps_mapping with Some m -> Printf.sprintf "%s:%s:%s" (Z.to_string (to_zn m.M.pm_interp)) (xstr m.M.pm_gamma) (xstr m.M.pm_offset) | None -> "nil")
+    (fstr_f p.M.ps_zero) (st p.M.ps_pos) (st p.M.ps_neg)
+let pb_of_sketch (s : M.sketch) : M.pb_sketch =
+  { M.ps_mapping = Some { M.pm_gamma = s.M.sk_map.M.mk_gamma; M.pm_offset = s.M.sk_map.M.mk_off; M.pm_interp = s.M.sk_map.M.mk_kind };
+    M.ps_pos = Some (pb_of_store s.M.sk_pos); M.ps_neg = Some (pb_of_store s.M.sk_neg); M.ps_zero = M.q2f s.M.sk_zero }
+(* MergeWithProto: map entries (last duplicate wins), then contiguous counts *)
+let merge_with_proto (s : M.store) (p : M.pb_store) : M.store option =
+  let adds = List.map (fun (i, w) -> (i, M.f2q w)) (M.pb_map_view p.M.bin_counts)
+             @ List.mapi (fun k w -> (z_of (Z.add (to_z p.M.contiguous_offset) (Z.of_int k)), M.f2q w)) p.M.contiguous_counts in
+  List.fold_left (fun acc (i, w) -> match acc with None -> None | Some st -> M.st_addw st i w) (Some s) adds
+let parse_protomk (toks : string list) : M.pb_store =
+  let get k = field toks k in
+  let bins = (match get "bins" with "" -> [] | b -> List.map (fun e -> match String.split_on_char ':' e with [i; w] -> (z_of_tok i, f64_of_hex w) | _ -> raise Unsupported) (String.split_on_char ',' b)) in
+  let (off, cs) = (match String.split_on_char ':' (get "contig") with
+      | [o; ""] -> (z_of_tok o, []) | [o; l] -> (z_of_tok o, List.map f64_of_hex (String.split_on_char ',' l)) | _ -> raise Unsupported) in
+  { M.bin_counts = bins; M.contiguous_counts = cs; M.contiguous_offset = off }
+let exec_proto (toks : string list) (side : string list) : string =
+  match toks with
+  | ["toproto"; p; r] -> Hashtbl.replace pstores p (pb_of_store (get_store r)); "ok"
+  | ["pobs"; p] -> pb_store_str (Hashtbl.find pstores p)
+  | ["pstream"; b; r] ->
+    let ib = side_bytes side in Hashtbl.replace bytesr b ib;
+    (match M.parse_store (bytes_of_string ib) with
+     | Some m -> if pb_store_str m = pb_store_str (pb_of_store (get_store r)) then "ok" else "ok MODEL-STREAM-DIFFERS [" ^ pb_store_str m ^ "]"
+     | None -> "ok MODEL-STREAM-UNPARSABLE")
+  | ["pmarshal"; b; p] ->
+    let ib = side_bytes side in Hashtbl.replace bytesr b ib;
+    (match M.parse_store (bytes_of_string ib) with
+     | Some m -> if pb_store_str m = pb_store_str (Hashtbl.find pstores p) then "ok" else "ok MODEL-MARSHAL-DIFFERS"
+     | None -> "ok MODEL-MARSHAL-UNPARSABLE")
+  | ["punmarshal"; p; b] ->
+    (match M.parse_store (bytes_of_string (get_bytes b)) with Some m -> Hashtbl.replace pstores p m; "ok" | None -> "err other")
+  | "protomk" :: p :: rest -> Hashtbl.replace pstores p (parse_protomk rest); "ok"
+  | ["fromproto"; r; p] ->
+    (match merge_with_proto (get_store r) (Hashtbl.find pstores p) with
+     | Some s -> Hashtbl.replace stores r (Some s); "ok" | None -> Hashtbl.replace stores r None; "panic")
+  | ["ktoproto"; p; k] -> let (_, s) = get_sk k in Hashtbl.replace psketches p (pb_of_sketch s); "ok"
+  | ["kpobs"; p] -> pb_sketch_str (Hashtbl.find psketches p)
+  | ["kstream"; b; k] ->
+    let (_, s) = get_sk k in
+    let ib = side_bytes side in Hashtbl.replace bytesr b ib;
+    (match M.parse_sketch (bytes_of_string ib) with
+     | Some m -> if pb_sketch_str m = pb_sketch_str (pb_of_sketch s) then "ok" else "ok MODEL-STREAM-DIFFERS [" ^ pb_sketch_str m ^ "]"
+     | None -> "ok MODEL-STREAM-UNPARSABLE")
+  | ["kpmarshal"; b; p] ->
+    let ib = side_bytes side in Hashtbl.replace bytesr b ib;
+    (match M.parse_sketch (bytes_of_string ib) with
+     | Some m -> if pb_sketch_str m = pb_sketch_str (Hashtbl.find psketches p) then "ok" else "ok MODEL-MARSHAL-DIFFERS"
+     | None -> "ok MODEL-MARSHAL-UNPARSABLE")
+  | ["kpunmarshal"; p; b] ->
+    (match M.parse_sketch (bytes_of_string (get_bytes b)) with Some m -> Hashtbl.replace psketches p m; "ok" | None -> "err other")
+  | ["kfromproto"; k; p; kind] ->
+    let msg = Hashtbl.find psketches p in
+    (match msg.M.ps_mapping with
+     | None -> "err nil-proto"
+     | Some pm ->
+       let kk = Z.to_int (to_zn pm.M.pm_interp) in
+       if not (kk = 0 || kk = 1 || kk = 3) then "err other"
+       else if M.fle pm.M.pm_gamma (f64_of_hex "3ff0000000000000") then "err bad-gamma"
+       else
+         let fresh () = M.st_new (parse_kind kind) in
+         let fill o = (match o with Some sp -> merge_with_proto (fresh ()) sp | None -> Some (fresh ())) in
+         (match fill msg.M.ps_pos, fill msg.M.ps_neg, side_map side with
+          | Some ps, Some ns, Some (_, mn, mx) ->
+            let id = { M.mk_kind = pm.M.pm_interp; M.mk_gamma = pm.M.pm_gamma; M.mk_off = pm.M.pm_offset } in
+            Hashtbl.replace sketches k (new_reg mn mx (Some { M.sk_map = id; M.sk_pos = ps; M.sk_neg = ns; M.sk_zero = M.f2q msg.M.ps_zero; M.sk_stats = None })); "ok"
+          | None, _, _ | _, None, _ -> "panic"
+          | _, _, None -> raise Unsupported))
+  | ["kpmk"; p; interp; gamma; off; zero; pp; np] ->
+    let st x = if x = "-" then None else Some (Hashtbl.find pstores x) in
+    Hashtbl.replace psketches p
+      { M.ps_mapping = Some { M.pm_gamma = f64_of_hex gamma; M.pm_offset = f64_of_hex off; M.pm_interp = n_of (Z.of_string interp) };
+        M.ps_pos = st pp; M.ps_neg = st np; M.ps_zero = f64_of_hex zero }; "ok"
+  | _ -> raise Unsupported
+
 let exec (toks : string list) (side : string list) (impl_result : string) : string =
   match toks with
   (* ----- stores ----- *)
@@ -516,7 +607,7 @@ let exec (toks : string list) (side : string list) (impl_result : string) : stri
     let one = f64_of_hex "3ff0000000000000" in
     let t = List.fold_left (fun t v -> M.su_add t (M.q2f v) one) M.su_new (Hashtbl.find datasets d).M.ds_values in
     xstr (M.su_get_sum t)
-  | _ -> ignore impl_result; raise Unsupported
+  | _ -> ignore impl_result; exec_proto toks side
 
 (* ---------- main loop ---------- *)
 let () =
@@ -532,7 +623,7 @@ let () =
          let toks = List.filter (fun t -> t <> "") (String.split_on_char ' ' line) in
          (match toks with
           | "case" :: _ ->
-            ignore (next_tr ()); reset_regs (); Hashtbl.reset mappings;
+            ignore (next_tr ()); reset_regs (); Hashtbl.reset mappings; Hashtbl.reset pstores; Hashtbl.reset psketches; Hashtbl.reset pmappings;
             Buffer.add_string out (String.concat " " toks); Buffer.add_char out '\n'
           | _ ->
             let rec chunk acc = match next_tr () with
